@@ -65,7 +65,8 @@ class PaneBase:
     ):
         old_params = getattr(cls, '__parameters__', ())
         super().__init_subclass__(*args, **kwargs)
-        setattr(cls, '__parameters__', old_params + getattr(cls, '__parameters__', ()))
+        # (a variable forwarded to a base *and* re-declared in Generic[...] must only be listed once)
+        setattr(cls, '__parameters__', tuple(dict.fromkeys(old_params + getattr(cls, '__parameters__', ()))))
 
         if rename is not None:
             if in_rename is not None or out_rename is not None:
